@@ -30,7 +30,7 @@ def _run(args):
     return p.returncode, p.stdout, p.stderr
 
 
-def explore(progs, tag, release=False):
+def explore(progs, tag, release=False, flag="--conc"):
     """harness: all schedules of every program. returns {name: dict(runs=[(schedule, rest)], seq=set, done=str)}"""
     os.makedirs(vfx.WORK, exist_ok=True)
     exe = os.path.join(vfx.HARNESS, "target", "release" if release else "debug", "vfsx")
@@ -42,13 +42,13 @@ def explore(progs, tag, release=False):
     for i, sh in enumerate(shards):
         f = os.path.join(vfx.WORK, "%s_conc_%d.txt" % (tag, i))
         open(f, "w").write("".join(p.text() for p in sh))
-        jobs.append((exe, f, ["--conc"]))
+        jobs.append((exe, f, [flag]))
     with ThreadPoolExecutor(max_workers=n) as ex:
         res = list(ex.map(_run, jobs))
     out = {}
     for (rc, so, se), job in zip(res, jobs):
         if rc != 0:
-            raise RuntimeError("harness --conc failed: %s" % se[-1500:])
+            raise RuntimeError("harness %s failed: %s" % (flag, se[-1500:]))
         for line in so.splitlines():
             kind, name, rest = line.split(" ", 2)
             d = out.setdefault(name, {"runs": [], "seq": set(), "done": ""})
